@@ -248,6 +248,26 @@ def run_shard(ctx):
         if snapshot(r) != PK.first_snap[key]:
             changed += 1
             report('mutated-operand', 'pooled class object %s changed over the shard' % key[:80], {'kind': 'hist-cls', 'prog': json.loads(key)}, key[:100])
+    # meta patterns: the value of a constructor call must not depend on the process / hash seed either
+    mcalls = meta_calls(tier, seed, part, nparts)
+    from . import meta as MT
+    for idx, (name, args, kw) in enumerate(mcalls):
+        if time.time() - t0 > budget:
+            truncated = True
+            break
+        ncases += 1
+        try:
+            obj = getattr(MT.ME, name)(*args, **kw)
+            fp = fp_of('done', str(obj))
+            txt = str(obj)
+        except LIBEXC as e:
+            fp, txt = 'exc:' + type(e).__name__, ''
+        except Exception as e:
+            fp, txt = 'crash:' + type(e).__name__, ''
+        evaluations += 1
+        keys.add(hashlib.blake2b(repr((name, args, sorted(kw.items()))).encode('utf-8', 'surrogatepass'), digest_size=8).hexdigest())
+        fps['m%d/%d' % (part, idx)] = fp
+        textfp['m%d/%d' % (part, idx)] = hashlib.blake2b(txt.encode('utf-8', 'surrogatepass'), digest_size=4).hexdigest()
     return {
         'evaluations': evaluations, 'cases': ncases, 'keys': sorted(keys), 'violations': viols, 'viol_counts': dict(nviol),
         'other_property_violations': {}, 'stats': {k: v for k, v in I.stats.items() if k in ('struct', 'probes', 'unspec', 'exc-ok', 'timeout')},
@@ -298,7 +318,10 @@ def cross_check(check, shard_results):
         for v in viols:
             pid = v['case']['id']
             part, idx = int(pid[1:].split('/')[0]), int(pid.split('/')[1])
-            if pid[0] == 'd':
+            if pid[0] == 'm':
+                name, args, kw = meta_calls(job['tier'], job['seed'], part, job['nparts'])[idx]
+                v['case'].update({'family': 'meta', 'prog': {'ctor': name, 'args': list(args), 'kw': kw}})
+            elif pid[0] == 'd':
                 item = programs(job['tier'], job['seed'], part, job['nparts'])[idx]
                 v['case'].update({'family': 'dsl', 'prog': G.strip_forms(item['prog']), 'form': item.get('form', 'c')})
             else:
@@ -308,6 +331,26 @@ def cross_check(check, shard_results):
             v['no_replay'] = True
             v['show'] = json.dumps(v['case']['prog'])[:300]
     return viols, info
+
+
+def meta_calls(tier, seed, part, nparts):
+    """deterministic list of meta constructor calls (same list under every hash seed)"""
+    from . import wrapload, meta as MT
+    rnd = random.Random(seed * 31 + 77)
+    calls = wrapload.w9_calls(rnd, 'quick')
+    fmts = MT.date_formats()
+    # lists of formats in which one format matches a prefix of another: the order of alternatives matters
+    for a, b in (('d/m/yy', 'd/m/yyyy'), ('yyyy-mm-d', 'yyyy-mm-dd'), ('m-d-yy', 'm-dd-yy'), ('dd/m/yy', 'dd/mm/yy'), ('d-m-yyyy', 'd-m-yy')):
+        for ext in (True, False):
+            calls.append(('Date', ([a, b],), {'is_extensible': ext}))
+            calls.append(('Date', ([b, a],), {'is_extensible': ext}))
+    for _ in range(12):
+        calls.append(('Date', (rnd.sample(fmts, rnd.choice([2, 3, 6, 12])),), {'is_extensible': rnd.random() < 0.7}))
+    for cls in ('WordContains', 'WordStartsWith', 'WordEndsWith'):
+        for _ in range(6):
+            calls.append((cls, (rnd.sample(['a', 'ab', 'abc', 'b', 'bc', 'x$', 'x', '.', 'a.b', 'é', '0', '01'], rnd.choice([2, 3, 5])),),
+                          {'is_extensible': rnd.random() < 0.5}))
+    return [c for i, c in enumerate(calls) if i % nparts == part]
 
 
 def class_programs(tier, seed, part, nparts):
